@@ -35,7 +35,7 @@ Local Notation valid := (C24Run.valid rn).
 
 (** Untracked entries not in the way of a set of tree paths. *)
 Definition uokp (u : fs) (k : list path) : Prop :=
-  wf_fs u /\ anchor u /\
+  nonroot u /\ anchor u /\
   forall x e, lookup u x = Some e ->
     (forall p, In p k -> is_prefix p x = false)
     /\ ((exists p, In p k /\ is_strict_prefix x p = true) ->
